@@ -1076,9 +1076,11 @@ func keyOrder(k *checker, r *hx.RNG) {
 	}
 }
 
-// utf8Probe: a Go string is a storable value whatever its bytes. The encoder writes a string with
-// invalid UTF-8 as a CBOR text string without complaint, the decoder (default UTF8RejectInvalid) then
-// refuses the whole record: the write succeeds and the block's receipts can never be read again.
+// utf8Probe: regression input for /repo b7e794b. A Go string is a storable value whatever its bytes; the
+// encoder writes a string with invalid UTF-8 as a CBOR text string without complaint and the decoder
+// used to refuse the whole record (default UTF8RejectInvalid): the write succeeded and the block's
+// receipts could never be read again. The general generator now produces such strings everywhere a
+// string is stored; this minimal case stays so that a regression gets its own narrow class.
 func utf8Probe(c *hx.Ctx, reasonHex string) {
 	raw, err := hex.DecodeString(reasonHex)
 	hx.Must(err)
@@ -1180,8 +1182,8 @@ func main() {
 	or := hx.StartOracle("/bin/sh", "-c", "ulimit -s 4000000 2>/dev/null; exec "+c.OraclePath)
 	defer or.Close()
 
-	nCases := 200
-	budget := 42 * time.Second
+	nCases := 160
+	budget := 52 * time.Second // of harness wall time, suites included
 	if c.Thorough() {
 		nCases, budget = 6000, 20*time.Minute
 	}
@@ -1195,6 +1197,16 @@ func main() {
 		if only.Accessor == "unreadable-after-write:invalid-utf8-string" {
 			utf8Probe(c, only.Detail)
 			c.Finish("replay of the invalid-UTF-8 string probe")
+		}
+		if only.Accessor == "length-suite" {
+			lengthSuite(c, []int{8, 10, 12, 16, 17, 18, 19, 20}, only.Detail, only.Index)
+			c.Finish("replay of one container kind at one length")
+		}
+		if only.Accessor == "limit-probe" {
+			if lim, err := layouts.DecoderLimits(repoPath()); err == nil {
+				c.Extra["decoder_limit_probe"] = limitProbe(c, lim)
+			}
+			c.Finish("replay of the decoder limit probe")
 		}
 		if only.Accessor == "layout-obligation" || only.Accessor == "translator" {
 			nCases = 40
@@ -1257,13 +1269,60 @@ func main() {
 	}
 
 	if only != nil {
-		cs := cut(genCase(only.Seed, only.Case, c.Thorough(), c.Hist), only.OnlyBlock, only.OnlyTx)
+		var full *chainCase
+		if only.Case < 0 {
+			full = boundaryCase(only.Seed, -only.Case-1, c.Hist)
+		} else {
+			full = genCase(only.Seed, only.Case, c.Thorough(), c.Hist)
+		}
+		cs := cut(full, only.OnlyBlock, only.OnlyTx)
 		for _, be := range []string{"memory", "pebblev2"} {
 			if fs := runOne(cs, only.Case, be, true, true); len(fs) > 0 {
 				report(cs, only.Case, be, true, fs)
 			}
 		}
 		c.Finish("replay of one generated case")
+	}
+
+	// ---- size thresholds: boundary block sizes and container lengths, in every run ----
+	limits, lerr := layouts.DecoderLimits(repoPath())
+	if lerr != nil {
+		c.Extra["decoder_limits"] = "unreadable: " + lerr.Error()
+	} else {
+		c.Extra["decoder_limits"] = limits
+	}
+	tSizes := time.Now()
+	for i := range boundarySizes {
+		cs := boundaryCase(seed, i, c.Hist)
+		// the model's raw value (index header ++ data) is compared for every size; its reads (each one
+		// re-walks the blob as a Coq list) for one size per threshold
+		nb := boundarySizes[i]
+		withModel := nb <= 3 || nb == 256 || nb == 512 || nb == 1024 || c.Thorough()
+		if fs := runOne(cs, cs.Idx, "memory", i%2 == 0, withModel); len(fs) > 0 {
+			report(cs, cs.Idx, "memory", i%2 == 0, fs)
+		}
+		if n := boundarySizes[i]; n == 513 || c.Thorough() {
+			if fs := runOne(cs, cs.Idx, "pebblev2", true, false); len(fs) > 0 {
+				report(cs, cs.Idx, "pebblev2", true, fs)
+			}
+		}
+		if os.Getenv("VERIF_C07_DEBUG") != "" {
+			fmt.Fprintf(os.Stderr, "boundary %d: cumulative %v (oracle %v)\n", boundarySizes[i], time.Since(tSizes), oracleTime)
+		}
+		c.Count(fmt.Sprintf("boundary-%d", boundarySizes[i]), true)
+		c.Evaluations--
+	}
+	c.Extra["boundary_suite_seconds"] = time.Since(tSizes).Seconds()
+	tLen := time.Now()
+	ks := []int{8, 10, 12, 16, 17}
+	if c.Thorough() {
+		ks = append(ks, 18, 19, 20)
+	}
+	lengthSuite(c, ks, "", 0)
+	c.Extra["length_suite_seconds"] = time.Since(tLen).Seconds()
+
+	if c.Thorough() && lerr == nil {
+		c.Extra["decoder_limit_probe"] = limitProbe(c, limits)
 	}
 
 	done := 0
